@@ -526,7 +526,8 @@ DFGRgetrig(int32 file_id, uint16 ref, DFGRrig *rig)
                     DFdifree(GroupID);
                     HGOTO_ERROR(DFE_READERROR, FAIL);
                 }
-                if ((ntstring[2] != 8) || (ntstring[1] != DFNT_UCHAR)) {
+                /* (the GR interface describes the same 8-bit unsigned data as DFNT_UINT8) */
+                if ((ntstring[2] != 8) || (ntstring[1] != DFNT_UCHAR && ntstring[1] != DFNT_UINT8)) {
                     DFdifree(GroupID);
                     HGOTO_ERROR(DFE_BADCALL, FAIL);
                 }
